@@ -24,6 +24,14 @@ C10 — packaging steps preserve behaviour (property theorems).
   * `C10.checkRenamingExplain_ok_iff` — the driver's entry point agrees with `checkRenaming`.
 
 (`run_commutes_with_renaming`, `valueToInstrs_roundtrip` follow below.)
+
+Further down (the packaging steps themselves, ported into the model):
+  * `tree_shake`: `treeShake_structRenaming`, `treeShake_isRenaming`, `treeShake_preserves_behaviour` (T1),
+    `treeShake_keeps_exactly_reachable` (T3), `treeShake_result_has_no_dead_entries`, `treeShake_idempotent`,
+    `treeShake_idempotent_bytecode`, `treeShake_statement` (T2), `treeShake_fuel_suffices`,
+    `legacy_shake_loses_process_entry` (F13 witness); through C08/C09 in Theorems/C10Tables.lean.
+  * `merge_bytecode`: `merge_never_disturbs_loaded_programs`, `merge_isRenaming_types_tuples`,
+    `merge_isRenaming_partial`, `merge_isRenaming`, `merge_preserves_behaviour`, `merge_fast_path_breaks_renaming`.
 -/
 namespace C10
 open QM QM.Packaging
